@@ -248,7 +248,12 @@ impl VisitMut for Rw {
             if let Expr::MethodCall(c) = e {
                 if c.method == "collect" && c.args.is_empty() {
                     if let Expr::MethodCall(mp) = &*c.receiver {
-                        let is_to_string = mp.args.len() == 1 && matches!(&mp.args[0], Expr::Path(p) if p.path.segments.last().map(|s| s.ident == "to_string").unwrap_or(false));
+                        // `T::to_string` or the closure `|x| x.to_string()`
+                        let is_to_string = mp.args.len() == 1
+                            && (matches!(&mp.args[0], Expr::Path(p) if p.path.segments.last().map(|s| s.ident == "to_string").unwrap_or(false))
+                                || matches!(&mp.args[0], Expr::Closure(c) if c.inputs.len() == 1
+                                    && matches!(&*c.body, Expr::MethodCall(b) if b.method == "to_string" && b.args.is_empty()
+                                        && matches!((&c.inputs[0], &*b.receiver), (syn::Pat::Ident(pi), Expr::Path(rp)) if rp.path.is_ident(&pi.ident)))));
                         if mp.method == "map" && is_to_string {
                             if let Expr::MethodCall(it) = &*mp.receiver {
                                 if it.method == "iter" && it.args.is_empty() {
@@ -537,7 +542,7 @@ impl VisitMut for Rw {
     fn visit_local_mut(&mut self, l: &mut syn::Local) {
         if self.display_unit {
             if let syn::Pat::Type(pt) = &l.pat {
-                if pt.ty.to_token_stream().to_string().replace(' ', "") == "Vec<_>" {
+                if ["Vec<_>", "Vec<String>"].contains(&pt.ty.to_token_stream().to_string().replace(' ', "").as_str()) {
                     // R11: the collected strings are the model type Strs
                     l.pat = (*pt.pat).clone();
                     self.bump("R11_drop_vec_annotation");
@@ -574,6 +579,14 @@ impl VisitMut for Rw {
                 p.path.segments[0].ident = syn::Ident::new("Self", p.path.segments[0].ident.span());
                 p.path.segments[0].arguments = syn::PathArguments::None;
                 self.bump("R2_trait_path_to_Self");
+                return;
+            }
+            // `Neg::neg(x)`, `Mul::mul(a, b)`, ...: the operator traits are named by their full path in the generated file
+            if p.qself.is_none() && ["Neg", "Add", "Sub", "Mul", "Div", "AddAssign", "SubAssign", "MulAssign", "DivAssign"].contains(&first.as_str()) {
+                let tr = p.path.segments[0].ident.clone();
+                let m = p.path.segments[1].ident.clone();
+                p.path = parse_quote!(core::ops::#tr::#m);
+                self.bump("R9_operator_trait_path");
                 return;
             }
         }
